@@ -27,8 +27,6 @@ theorem SameCore.minInv {s s' : State} (h : SameCore s s') (w : MinInv s) : MinI
 theorem SameCore.clean {s s' : State} (h : SameCore s s') (w : DvpClean s) : DvpClean s' := by
   intro a val hv; rw [h.votes] at hv; rw [h.dvp]; exact w a val hv
 
-theorem setGauge_core (s : State) (g : Gauge) : SameCore s (s.setGauge g) := ⟨rfl, rfl, rfl, rfl⟩
-
 theorem pay_core {s s1 : State} {a : Nat} {g : Gauge} {e : Endorsement} {pw p : Int}
     (h : s.pay a g e pw = .ok (s1, p)) : SameCore s s1 ∧ s1.stk = s.stk := by
   unfold State.pay at h
